@@ -299,3 +299,16 @@ Proof. vm_compute. reflexivity. Qed.
 Example ex_forward_pointer_rejected :
   dns_name_parse_tr 20 (set_off (cur_of_bytes (repeat 0 12 ++ [192; 14; 1; 97; 0])%N) 12) true false = Err ARES_EBADNAME.
 Proof. vm_compute. reflexivity. Qed.
+
+(* chained pointers: the name at 8 points to the pointer at 6, which points to the pointer at 2,
+   which points FORWARD to 6 again (all targets below the offset where the name starts): rejected at
+   the second hop, because the lowest offset read so far is lowered at EVERY octet read, pointers
+   included *)
+Example ex_pointer_cycle_before_name_rejected :
+  dns_name_parse_tr 11 (set_off (cur_of_bytes [0; 0; 192; 6; 0; 0; 192; 2; 192; 6]%N) 8) true false = Err ARES_EBADNAME.
+Proof. vm_compute. reflexivity. Qed.
+
+(* ... and a forward hop to a label behind a backward pointer is rejected as well: 8 -> 4 -> 6 ("x") *)
+Example ex_forward_hop_to_label_rejected :
+  dns_name_parse_tr 11 (set_off (cur_of_bytes [0; 0; 0; 0; 192; 6; 1; 120; 192; 4; 0]%N) 8) true false = Err ARES_EBADNAME.
+Proof. vm_compute. reflexivity. Qed.
